@@ -51,6 +51,16 @@ def _merge_depth(c: Counter) -> Counter:
     return out
 
 
+def _flag(c: ast.Call, kw: str) -> str:
+    """'1' when the bit vector carries the all-defined byte (third argument / keyword is the constant True), '0' when not, '?' otherwise"""
+    v = next((k.value for k in c.keywords if k.arg == kw), c.args[2] if len(c.args) > 2 else None)
+    if v is None:
+        return "0"
+    if isinstance(v, ast.Constant) and isinstance(v.value, bool):
+        return "1" if v.value else "0"
+    return "?"
+
+
 class Extractor:
     def __init__(self, prog, cls_name: str, side: str):
         self.prog = prog
@@ -103,6 +113,8 @@ class Extractor:
         name = attr_tail(c) if isinstance(c.func, ast.Attribute) else (c.func.id if isinstance(c.func, ast.Name) else "")
         own = isinstance(c.func, ast.Attribute) and isinstance(c.func.value, ast.Name) and c.func.value.id == "self"
         if self.side == "read":
+            if name == "read_boolean":
+                return self.one("V" + _flag(c, "checkall"))  # with / without the leading all-defined byte: two different layouts
             if name in READ_PRIMS:
                 return self.one(READ_PRIMS[name])
             if name == "read_crcs":
@@ -114,6 +126,8 @@ class Extractor:
             if own and name.startswith(("_read", "_retrieve")):
                 return self.inline(name)
             return {}
+        if name == "write_boolean":
+            return self.one("V" + _flag(c, "all_defined"))
         if name in WRITE_PRIMS:
             return self.one(WRITE_PRIMS[name])
         if name == "write_crcs":
